@@ -105,7 +105,7 @@ class SrtContext:
 
       elif (
           self._paragraphs[-1].get_end() is not None and
-          self._paragraphs[-1].get_end().to_seconds() <= self._paragraphs[-1].get_begin().to_seconds()
+          self._paragraphs[-1].get_end().to_temporal_offset() <= self._paragraphs[-1].get_begin().to_temporal_offset()
         ):
         LOGGER.warning("Removing paragraph shorter than the SRT time resolution.")
         self._paragraphs.pop()
@@ -188,7 +188,7 @@ class SrtContext:
       else:
         # set default end time code
         LOGGER.warning("Set a default end value to paragraph (begin + 10s).")
-        self._paragraphs[-1].set_end(self._paragraphs[-1].get_begin().to_seconds() + 10.0)
+        self._paragraphs[-1].set_end(self._paragraphs[-1].get_begin().to_temporal_offset() + 10)
 
   def __str__(self) -> str:
     return "\n".join(p.to_string(id + 1) for id, p in enumerate(self._paragraphs))
